@@ -51,8 +51,11 @@ func (x *Exec) inlinableLoops(callee *ssa.Function, loopsOK bool) bool {
 	if callee.Pkg == nil || !strings.HasPrefix(callee.Pkg.Pkg.Path(), modPath) {
 		return false
 	}
-	if len(callee.FreeVars) > 0 || callee.Recover != nil {
+	if callee.Recover != nil {
 		return false
+	}
+	if len(callee.FreeVars) > 0 && x.closureSite(callee) == nil {
+		return false // a function literal is inlined only where its captured variables are known
 	}
 	for p := x; p != nil; p = p.parent {
 		if p.fn == callee {
@@ -105,10 +108,17 @@ func (x *Exec) inlineCall(callee *ssa.Function, args []Val, ssaArgs []ssa.Value)
 			sub.paramArgs[p] = ssaArgs[i]
 		}
 	}
+	if mc := x.closureSite(callee); mc != nil {
+		for i, fv := range callee.FreeVars {
+			if i < len(mc.Bindings) {
+				sub.vals[fv] = x.val(mc.Bindings[i])
+			}
+		}
+	}
 	sub.st = x.st
 	sub.loopBase = x.inlineLoopBase[callee]
 	sub.findLoops()
-	e.assumptionsUsed["helpers without a contract are inlined at their call sites (loop-free, non-recursive, at most 3 deep): "+shortName(callee)] = true
+	e.assumptionsUsed["helpers without a contract are executed at their call sites under the caller's contract (non-recursive, at most 3 deep; their loops only under loop invariants of the caller's contract): "+shortName(callee)] = true
 	for _, b := range sub.topoOrder() {
 		sub.execBlock(b)
 	}
@@ -146,4 +156,24 @@ func (x *Exec) inlineCall(callee *ssa.Function, args []Val, ssaArgs []ssa.Value)
 		out[i] = v
 	}
 	return out
+}
+
+// closureSite: the one place in the current function where the function literal
+// callee is created (its captured variables are the bindings there).
+func (x *Exec) closureSite(callee *ssa.Function) *ssa.MakeClosure {
+	if x.fn == nil || callee.Parent() != x.fn {
+		return nil
+	}
+	var site *ssa.MakeClosure
+	for _, b := range x.fn.Blocks {
+		for _, in := range b.Instrs {
+			if mc, ok := in.(*ssa.MakeClosure); ok && mc.Fn == callee {
+				if site != nil {
+					return nil
+				}
+				site = mc
+			}
+		}
+	}
+	return site
 }
